@@ -388,3 +388,195 @@ func c11NoMemorySizeBound(p *load.Program, r *core.Report) {
 		})
 	}
 }
+
+// sccOf: the blocks of the strongly connected component of b (empty when b is not in a loop).
+func sccOf(b *ssa.BasicBlock) map[*ssa.BasicBlock]bool {
+	fwd := map[*ssa.BasicBlock]bool{}
+	bwd := map[*ssa.BasicBlock]bool{}
+	var walk func(x *ssa.BasicBlock, m map[*ssa.BasicBlock]bool, succ bool)
+	walk = func(x *ssa.BasicBlock, m map[*ssa.BasicBlock]bool, succ bool) {
+		next := x.Succs
+		if !succ {
+			next = x.Preds
+		}
+		for _, n := range next {
+			if !m[n] {
+				m[n] = true
+				walk(n, m, succ)
+			}
+		}
+	}
+	walk(b, fwd, true)
+	out := map[*ssa.BasicBlock]bool{}
+	if !fwd[b] {
+		return out
+	}
+	walk(b, bwd, false)
+	for x := range fwd {
+		if bwd[x] {
+			out[x] = true
+		}
+	}
+	return out
+}
+
+// isElementDecode: a call of a decoder picked at run time (the Decode field of a decoder), whose
+// first argument is the *reflect.Value to decode into.
+func isElementDecode(c *ssa.Call) bool {
+	cc := c.Common()
+	if cc.IsInvoke() || cc.StaticCallee() != nil || len(cc.Args) != 3 {
+		return false
+	}
+	if _, path, ok := fieldPath(cc.Value); !ok || len(path) == 0 || path[len(path)-1] != "Decode" {
+		return false
+	}
+	return strings.HasSuffix(cc.Args[0].Type().String(), "*reflect.Value")
+}
+
+// c11FreshElementTargets: E18 — a decoder that meets a nil on the wire (nil slice, map, interface
+// value, error) returns without touching its target and relies on the target being zero. Inside a
+// counted loop every element decoder therefore gets a target made in that very iteration
+// (reflect.New / Indirect, value.Index(i), value.Field(i)): a holder made before the loop carries
+// the previous element's value over to an element that is nil on the wire.
+func c11FreshElementTargets(p *load.Program, r *core.Report) {
+	rule := "C11.E18 element-target-fresh-per-iteration"
+	r.Floor(rule, 9)
+	seq := map[string]int{}
+	for _, f := range funcsOfPkgs(p, "net/edf") {
+		eachInstr(f, func(in ssa.Instruction) {
+			c, ok := in.(*ssa.Call)
+			if !ok || !isElementDecode(c) {
+				return
+			}
+			scc := sccOf(in.Block())
+			if len(scc) == 0 {
+				return
+			}
+			fn := fname(f)
+			seq[fn]++
+			key := fmt.Sprintf("C11.E18|%s|element#%d", fn, seq[fn])
+			inst := "the target handed to the element decoder is made in the iteration that decodes the element"
+			cell, isAlloc := c.Common().Args[0].(*ssa.Alloc)
+			if !isAlloc {
+				r.Unk(rule, key, fn, p.Pos(in.Pos()), inst, "the target is not a local cell: "+c.Common().Args[0].String())
+				return
+			}
+			bad := ""
+			stores := 0
+			if refs := cell.Referrers(); refs != nil {
+				for _, x := range *refs {
+					st, ok := x.(*ssa.Store)
+					if !ok || st.Addr != ssa.Value(cell) {
+						continue
+					}
+					stores++
+					if !scc[st.Block()] {
+						// a store before the loop is fine only when one inside the loop overwrites it before the call
+						continue
+					}
+					if vi, ok := st.Val.(ssa.Instruction); ok && !scc[vi.Block()] {
+						bad = fmt.Sprintf("the value stored at %s is made outside the loop (%s)", p.Pos(st.Pos()), st.Val.String())
+					}
+				}
+			}
+			inLoop := 0
+			if refs := cell.Referrers(); refs != nil {
+				for _, x := range *refs {
+					if st, ok := x.(*ssa.Store); ok && st.Addr == ssa.Value(cell) && scc[st.Block()] {
+						inLoop++
+					}
+				}
+			}
+			// the cell itself allocated inside the loop counts as fresh only with a store of a fresh value
+			if inLoop == 0 {
+				bad = "no store to the target inside the loop: one holder, made before the loop, serves all the elements"
+			}
+			if bad == "" {
+				r.OK(rule, key, fn, p.Pos(in.Pos()), inst, fmt.Sprintf("%d store(s) to the target, those in the loop store a value made in the loop", stores))
+			} else {
+				r.Bad(rule, key, fn, p.Pos(in.Pos()), inst, bad+": an element that is nil on the wire keeps the value of the element decoded before it")
+			}
+		})
+	}
+}
+
+// c11DepthBalanced: E17 — the nesting counter is shared by the whole encoding/decoding: after the
+// level is counted, every successful return of the function gives it back (a deferred decrement,
+// or one on each path); a leaked level makes a long flat value hit the nesting bound.
+func c11DepthBalanced(p *load.Program, r *core.Report) {
+	rule := "C11.E17 nesting-counter-balanced"
+	r.Floor(rule, 2)
+	for _, f := range funcsOfPkgs(p, "net/edf") {
+		if f.Parent() != nil || len(f.Params) != 3 {
+			continue
+		}
+		_, cmp, _, ok := nestingGuard(f)
+		if !ok {
+			continue
+		}
+		ld := cmp.X.(*ssa.UnOp)
+		step := func(x ssa.Instruction, op token.Token, fn *ssa.Function) bool {
+			st, ok := x.(*ssa.Store)
+			if !ok {
+				return false
+			}
+			if fn == f {
+				if canon(st.Addr) != canon(ld.X) {
+					return false
+				}
+			}
+			b, ok := st.Val.(*ssa.BinOp)
+			if !ok || b.Op != op {
+				return false
+			}
+			c, okc := constInt(b.Y)
+			return okc && c == 1
+		}
+		var incs []ssa.Instruction
+		eachInstr(f, func(in ssa.Instruction) {
+			if step(in, token.ADD, f) {
+				incs = append(incs, in)
+			}
+		})
+		fn := fname(f)
+		key := "C11.E17|" + fn
+		inst := "every successful return after the level was counted gives the level back"
+		if len(incs) == 0 {
+			continue
+		}
+		idx := errResultIndex(f)
+		var leak ssa.Instruction
+		for _, inc := range incs {
+			stop := func(x ssa.Instruction) bool {
+				if step(x, token.SUB, f) {
+					return true
+				}
+				if d, ok := x.(*ssa.Defer); ok {
+					if mc, ok := d.Call.Value.(*ssa.MakeClosure); ok {
+						hit := false
+						g := mc.Fn.(*ssa.Function)
+						eachInstr(g, func(y ssa.Instruction) {
+							if step(y, token.SUB, g) {
+								hit = true
+							}
+						})
+						return hit
+					}
+				}
+				return false
+			}
+			isOKRet := func(x ssa.Instruction) bool {
+				rt, ok := x.(*ssa.Return)
+				return ok && (idx < 0 || errKind(rt.Results[idx]) != "nonnil")
+			}
+			if h := reaches([]Point{{inc.Block(), indexIn(inc) + 1}}, stop, isOKRet); h != nil {
+				leak = h
+			}
+		}
+		if leak == nil {
+			r.OK(rule, key, fn, p.Pos(incs[0].Pos()), inst, "a decrement (deferred or explicit) lies on every path from the increment to a return that may report success")
+		} else {
+			r.Bad(rule, key, fn, p.Pos(leak.Pos()), inst, "this return is reachable from the increment without a decrement: every value taking this path leaks one level for the rest of the call, and after the bound is reached a flat value is refused as 'too deep'")
+		}
+	}
+}
